@@ -136,6 +136,7 @@ int predict_access_rc(const MFile &f, int rank, int varid, const Access &a, bool
         if (!coll && f.mode != FM_INDEP) { fatal = true; return NC_ENOTINDEP; }
     }
     if (varid == -1) return NC_EGLOBAL;
+    if (a.invalid == INV_BAD_VARID) return NC_ENOTVAR;
     if (varid < 0 || varid >= (int)f.vars.size()) return NC_ENOTVAR;
     const MVar &v = f.vars[varid];
     if (!a.flexible) { if ((a.memtype == MT_TEXT) != (v.type == NC_CHAR)) return NC_ECHAR; }
@@ -201,11 +202,13 @@ static void apply_put(MFile &f, MVar &v, int rank, const Access &a, int opidx, b
 }
 static void expect_get(MFile &f, MVar &v, int rank, Access &a) {
     a.values.assign(a.elems.size(), 0); a.estate.assign(a.elems.size(), 2);
+    std::map<long long, int> seen;   // elements named more than once by one varn request: only the first occurrence is checked (see known finding C02 overlapping reads)
     for (size_t k = 0; k < a.elems.size(); k++) {
         long long e = a.elems[k];
         if (e < 0 || e >= (long long)v.cells.size()) continue;
         const Cell &c = v.cells[(size_t)e];
         if (c.wmask & ~(uint8_t)(1u << rank)) continue;   // written by another rank and not yet ordered by the documented synchronisation
+        if (a.form == F_VARN && seen[e]++) continue;
         if (c.st == CS_VALUE) { a.values[k] = c.v; a.estate[k] = 0; }
         else if (c.st == CS_FILL) a.estate[k] = 1;
     }
@@ -464,7 +467,8 @@ static bool model_step_inner(Model &m, Op &op) {
         for (int r = 0; r < m.nprocs; r++) {
             Access &a = op.acc[r]; a.elems.clear(); a.exp_rc = NC_NOERR; a.rc_any = false;
             if (!a.active) continue;
-            if (v.type == NC_CHAR) a.memtype = MT_TEXT; else if (a.memtype == MT_TEXT) a.memtype = native_memtype(v.type);
+            if (a.invalid == INV_TYPE_CHAR) { a.flexible = false; a.memtype = (v.type == NC_CHAR) ? MT_INT : MT_TEXT; }
+            else if (v.type == NC_CHAR) a.memtype = MT_TEXT; else if (a.memtype == MT_TEXT) a.memtype = native_memtype(v.type);
             normalise_access(v, a);
             bool fatal; int rc = predict_access_rc(f, r, vi, a, is_read, is_read ? K_GET : K_PUT, op.coll, m.strict_coord, fatal);
             a.exp_rc = rc; op.exp_rc_rank[r] = rc;
@@ -476,7 +480,12 @@ static bool model_step_inner(Model &m, Op &op) {
             acc_elems(v, a, a.elems);
             if (is_read) { expect_get(f, v, r, a); repair_memtype(v, a, true); }
         }
+        if (op.coll && m.safe_mode && m.nprocs > 1) {   // safe mode: the smallest error code is returned by every rank and nothing is transferred
+            int mn = NC_NOERR; for (int r = 0; r < m.nprocs; r++) if (op.acc[r].active) mn = std::min(mn, op.acc[r].exp_rc);
+            if (mn != NC_NOERR) { for (int r = 0; r < m.nprocs; r++) { op.acc[r].exp_rc = mn; op.exp_rc_rank[r] = mn; op.acc[r].elems.clear(); } op.note = "safe-mode-shared-error"; }
+        }
         if (is_read) { op.snap = schema_copy(f); for (int r = 0; r < m.nprocs; r++) if (op.acc[r].active && op.acc[r].exp_rc == NC_NOERR) m.pending_reads.push_back({opidx, r, op.file, vi}); }
+        if (!is_read) op.a[5] = v.isrec ? 1 : 0;   // (for attribution of the C08 known finding)
         if (!is_read) {
             // values: unique per (op, rank, element); detect intra-op overlap between ranks
             std::map<long long, int> owner;
@@ -610,6 +619,7 @@ void annotate(Model &m, Program &p) {
     auto it = p.cfg.sim.env.find("PNETCDF_RELAX_COORD_BOUND");
     m.strict_coord = (it != p.cfg.sim.env.end() && it->second == "0");
     m.strict_iget_overlap = (p.cfg.flags & 1) != 0;
+    { auto sm = p.cfg.sim.env.find("PNETCDF_SAFE_MODE"); m.safe_mode = (sm != p.cfg.sim.env.end() && sm->second != "0"); }
     { auto h = p.cfg.sim.env.find("PNETCDF_HINTS"); m.aggr_env = (h != p.cfg.sim.env.end() && h->second.find("nc_num_aggrs_per_node") != std::string::npos); }
     m.cur_ops = &p.ops;
     for (auto &op : p.ops) model_step(m, op);
